@@ -4,9 +4,11 @@ import (
 	"context"
 	"fmt"
 	"io"
+	"os"
 	"regexp"
 	"sort"
 	"strings"
+	"sync"
 	"testing"
 	"time"
 
@@ -14,7 +16,9 @@ import (
 	"github.com/atlassian/gostatsd/pkg/cachedinstances/k8s"
 	"github.com/sirupsen/logrus"
 	core_v1 "k8s.io/api/core/v1"
+	apierrors "k8s.io/apimachinery/pkg/api/errors"
 	meta_v1 "k8s.io/apimachinery/pkg/apis/meta/v1"
+	"k8s.io/apimachinery/pkg/runtime"
 	"k8s.io/apimachinery/pkg/watch"
 	mainFake "k8s.io/client-go/kubernetes/fake"
 	kube_testing "k8s.io/client-go/testing"
@@ -27,7 +31,7 @@ import (
 func TestMain(m *testing.M) {
 	logrus.SetOutput(io.Discard)
 	logrus.SetLevel(logrus.PanicLevel)
-	ev.C().Rule("rapid state machine over k8s.NewProvider with a fake clientset and fake watcher: pods with distinct names and IPs from a pool of 4 (an IP is re-used only after its holder was deleted); actions add / update (phase, host network, host IP, IP set/unset/changed, deletion timestamp, label and annotation edits) / delete / lookup(ip) through Peek and IpSink->InfoSource; every watch event is followed by a sentinel-pod barrier; label and annotation regexes from a pool with and without the named group. Oracle: pod model at quiescent points. Non-trivial = a lookup that was memoised, then an invalidating event, then another lookup of the same IP")
+	ev.C().Rule("rapid state machine over k8s.NewProvider with a fake clientset and fake watcher: pods with distinct names and IPs from a pool of 4 (an IP is re-used only after its holder was deleted); actions add / update (phase, host network, host IP, IP set/unset/changed, deletion timestamp, label and annotation edits) / delete / relist (the watch breaks, a drawn subset of pods disappears while it is down, the informer relists and reopens its watch) / lookup(ip) through Peek and IpSink->InfoSource; every watch event is followed by a sentinel-pod barrier; label and annotation regexes from a pool with and without the named group. Oracle: pod model at quiescent points. Non-trivial = a lookup that was memoised, then an invalidating event, then another lookup of the same IP")
 	vt.Main(m)
 }
 
@@ -136,8 +140,30 @@ func TestPodHistories(t *testing.T) {
 			are = regexp.MustCompile(ars)
 		}
 		client := mainFake.NewSimpleClientset()
-		w := watch.NewFake()
-		client.PrependWatchReactor("pods", kube_testing.DefaultWatchReactor(w, nil))
+		// every watch the informer opens gets a fresh fake watcher that the harness feeds; what a (re)list returns is the
+		// harness' current pod set, so that a relist after a broken watch can reveal deletions it never saw as events
+		watchers := make(chan *watch.FakeWatcher, 8)
+		var listMu sync.Mutex
+		var listed []core_v1.Pod
+		watchExpired := false
+		client.PrependWatchReactor("pods", func(kube_testing.Action) (bool, watch.Interface, error) {
+			listMu.Lock()
+			expired := watchExpired
+			watchExpired = false
+			listMu.Unlock()
+			if expired {
+				// "resource version too old": the informer has to list again before it can watch
+				return true, nil, apierrors.NewResourceExpired("too old resource version")
+			}
+			fw := watch.NewFake()
+			watchers <- fw
+			return true, fw, nil
+		})
+		client.PrependReactor("list", "pods", func(kube_testing.Action) (bool, runtime.Object, error) {
+			listMu.Lock()
+			defer listMu.Unlock()
+			return true, &core_v1.PodList{Items: append([]core_v1.Pod(nil), listed...)}, nil
+		})
 		prov, err := k8s.NewProvider(logrus.StandardLogger(), client, k8s.PodInformerOptions{ResyncPeriod: 0, WatchCluster: true}, are, lre)
 		if err != nil {
 			t.Fatalf("NewProvider: %v", err)
@@ -145,6 +171,12 @@ func TestPodHistories(t *testing.T) {
 		ctx, cancel := context.WithCancel(context.Background())
 		done := make(chan struct{})
 		go func() { prov.Run(ctx); close(done) }()
+		var w *watch.FakeWatcher
+		select {
+		case w = <-watchers:
+		case <-time.After(30 * time.Second):
+			t.Fatalf("the informer never opened its watch")
+		}
 		defer func() {
 			cancel()
 			<-done
@@ -157,6 +189,8 @@ func TestPodHistories(t *testing.T) {
 		memo := map[string]bool{}        // ip looked up with a non-nil answer since the last invalidating event for it
 		invalidated := map[string]bool{} // ip that was memoised and then touched by an event
 		nontrivial := false
+		relisted := false
+		relistDone := false
 		nextName := 0
 
 		fail := func(sig, f string, a ...interface{}) {
@@ -364,6 +398,48 @@ func TestPodHistories(t *testing.T) {
 				send(func() { w.Delete(p.obj()) })
 				barrier()
 			},
+			"relist": func(t *rapid.T) {
+				// the watch breaks; while it is down some pods are deleted; the informer relists and learns of those
+				// deletions only as "final state unknown" tombstones
+				// a relist costs about a second of the reflector's real-time back-off: at most one per history, and rarely
+				// (enabled in the "relist" job only, see lib/props.py)
+				if os.Getenv("C13_RELIST") == "" || relistDone || rapid.IntRange(0, 2).Draw(t, "relist-now") != 0 {
+					t.Skip("no relist now")
+				}
+				relistDone = true
+				var gone []string
+				for _, n := range names() {
+					if rapid.IntRange(0, 2).Draw(t, "deleted-while-disconnected") != 0 {
+						gone = append(gone, n)
+					}
+				}
+				for _, n := range gone {
+					p := pods[n]
+					touch(p.ip)
+					delete(pods, n)
+					if p.ip != "" {
+						delete(ipUsed, p.ip)
+					}
+				}
+				history = append(history, fmt.Sprintf("relist (deleted while the watch was down: %v)", gone))
+				listMu.Lock()
+				listed = nil
+				for _, n := range names() {
+					listed = append(listed, *pods[n].obj())
+				}
+				watchExpired = true
+				listMu.Unlock()
+				w.Stop()
+				select {
+				case w = <-watchers:
+				case <-time.After(60 * time.Second):
+					fail("C13:watch-not-reopened", "the informer did not reopen its watch within 60s after it broke")
+				}
+				if len(gone) > 0 {
+					relisted = true
+				}
+				barrier()
+			},
 			"lookupHeld": func(t *rapid.T) { // a lookup of an IP some pod holds (keeps lookups meaningful)
 				var held []string
 				for ip := range ipUsed {
@@ -386,6 +462,9 @@ func TestPodHistories(t *testing.T) {
 		}
 		if nontrivial {
 			labels = append(labels, "lookup-after-invalidation-of-memoised-ip")
+		}
+		if relisted {
+			labels = append(labels, "deletion-seen-only-through-relist")
 		}
 		if ev.C().WantSample() {
 			ev.C().Sample(map[string]interface{}{"label_regex": lrs, "annotation_regex": ars, "history": history})
